@@ -402,6 +402,24 @@ class C01(core.Check):
                               'tags': ['statement-taken-by-several-variants'], 'sig': layout_sig(fl)})
                 addr += len(b)
             yield self._case(obj, lines, 'json', 'several-variants-take-it')
+        # operands spelled like a mnemonic behind `$` (a hexadecimal number) or behind `.` (a local label): part of the operand
+        for endian in ('big', 'little'):
+            obj = isamod.base_isa(address_size=16, endian=endian)
+            obj['operand_sets'] = {'i16': {'operand_values': {'n16': {'type': 'numeric', 'argument': {'size': 16, 'byte_align': True}}}}}
+            obj['instructions'] = {'ldi': {'bytecode': {'value': 0x21, 'size': 8}, 'operands': {'count': 1, 'operand_sets': {'list': ['i16']}}},
+                                   'adc': {'bytecode': {'value': 0x31, 'size': 8}}, 'dec': {'bytecode': {'value': 0x32, 'size': 8}},
+                                   'add': {'bytecode': {'value': 0x33, 'size': 8}}, 'bad': {'bytecode': {'value': 0x34, 'size': 8}}}
+            lines = [{'k': 'org', 'text': '.org 0', 'addr': 0}, {'k': 'label', 'text': 'c01_host:', 'addr': 0}, {'k': 'label', 'text': '.dec:', 'addr': 0}]
+            addr = 0
+            for txt, v in (('ldi $adc', 0xADC), ('ldi $dec', 0xDEC), ('ldi -$add', -0xADD), ('ldi $bad + $add', 0xBAD + 0xADD), ('ldi .dec', 0),
+                           ('LDI $ADC', 0xADC), ('ldi $0adc', 0xADC), ('ldi 0 + $dec', 0xDEC)):
+                st = {'mn': 'ldi', 'variant': 0, 'spec': None, 'ops': [{'id': 'n16', 'val': v}]}
+                b, fl = encode.encode(obj, st, addr, {'GLOBAL': (0, 65535)})
+                lines.append({'k': 'instr', 'text': txt, 'addr': addr, 'size': len(b), 'bytes': b.hex(),
+                              'fields': [[a, s_, al, e, k] for a, s_, al, e, k in fl],
+                              'tags': ['operand-spelled-like-a-mnemonic-behind-$-or-.'], 'sig': layout_sig(fl)})
+                addr += len(b)
+            yield self._case(obj, lines, 'json', 'mnemonic-spelling-inside-an-operand')
         # seed-independent prelude + seeded random programs
         n_pre = 250
         n_rand = 700 if tier == 'quick' else 12000
